@@ -165,6 +165,8 @@ pub struct SchedOut {
     pub in_active: Option<usize>,
     /// record counts of the closed blobs at final quiescence (before the restart)
     pub closed_counts: Vec<usize>,
+    /// ids of non-empty closed blobs without an index file at final quiescence
+    pub closed_without_index: Vec<usize>,
     pub worker_alive: bool,
 }
 
@@ -405,12 +407,23 @@ async fn main_task<K: HKey>(spec: SchedSpec) -> SchedOut {
     }
     ctl::with_ctl(|c| c.set_exploring(false));
     ctl::quiesce().await;
+    if spec.liveness_check {
+        // index dumps may have been deferred (up to 180 s): let that time pass
+        ctl::with_ctl(|c| c.request_clock(std::time::Duration::from_secs(200)));
+        ctl::quiesce().await;
+    }
     out.final_obs = final_obs(&*storage, &spec.keys).await;
     out.in_active = storage.records_count_in_active_blob().await;
     {
         let d = storage.records_count_detailed().await;
         let closed = if out.in_active.is_some() { d.len().saturating_sub(1) } else { d.len() };
         out.closed_counts = d[..closed].iter().map(|x| x.1).collect();
+        let names: Vec<String> = world::dir_listing(&dir).into_iter().map(|x| x.0).collect();
+        out.closed_without_index = d[..closed]
+            .iter()
+            .filter(|(id, n)| *n > 0 && !names.iter().any(|f| *f == format!("{}.{id}.index", spec.wcfg.prefix)))
+            .map(|x| x.0)
+            .collect();
     }
     out.worker_alive = ctl::with_ctl(|c| c.task_alive("worker"));
     if spec.cancel.is_none() {
@@ -842,6 +855,16 @@ pub fn judge(spec: &SchedSpec, trace: &RunTrace, panics: &[String], out: &SchedO
     if spec.liveness_check {
         if !out.worker_alive {
             fs.push(finding("worker_dead", "the background worker is not running at the end of the run".to_string()));
+        }
+        // requested index dumps complete: a closed blob keeps its index in memory only while a
+        // deferred dump is registered, which takes a delete into a closed blob
+        let deletes = spec.clients.iter().flatten().chain(spec.followup.iter()).any(|c| matches!(c, COp::D { .. }))
+            || spec.prefix.iter().any(|o| matches!(o, Op::Delete { .. }));
+        if !deletes && !out.closed_without_index.is_empty() {
+            fs.push(finding(
+                "index_dump",
+                format!("at quiescence the closed blobs {:?} have no index file: a requested index dump did not complete", out.closed_without_index),
+            ));
         }
         if let Some(n) = out.in_active {
             if n as u64 >= spec.wcfg.max_data_in_blob {
